@@ -95,6 +95,6 @@ Theorem co_C20_rules_hold : forall r, In r c20_rules -> rule_holds r.
 Proof. intros r H. apply co_rules_hold, in_co_rules. tauto. Qed.
 
 (* non-vacuity: each property has rules *)
-Example rules_counts : List.length c07_rules = 5%nat /\ List.length c10_rules = 4%nat /\ List.length c11_rules = 1%nat
+Example rules_counts : List.length c07_rules = 5%nat /\ List.length c10_rules = 5%nat /\ List.length c11_rules = 1%nat
   /\ List.length c13_rules = 3%nat /\ List.length c19_rules = 10%nat /\ List.length c20_rules = 4%nat.
 Proof. vm_compute. repeat split. Qed.
